@@ -389,3 +389,17 @@ Proof. intros H. unfold text_. now rewrite ascii_utf8_valid. Qed.
 
 Lemma all_ascii_app a b : all_ascii (a ++ b) = all_ascii a && all_ascii b.
 Proof. apply forallb_app. Qed.
+
+(* a separator whose first byte does not occur before it is found exactly there *)
+Lemma split_once_first_notin s0 s' a b : ~ In s0 a ->
+  split_once (s0 :: s') (a ++ (s0 :: s') ++ b) = Some (a, b).
+Proof.
+  induction a as [|x a IH]; intros Hn.
+  - cbn [app]. rewrite split_once_here by (change (s0 :: s' ++ b) with ((s0 :: s') ++ b); apply is_prefix_self_app).
+    change (s0 :: s' ++ b) with ((s0 :: s') ++ b).
+    rewrite skipn_app, Nat.sub_diag, skipn_all. reflexivity.
+  - apply not_in_cons_ne in Hn as [Hx Hn].
+    change ((x :: a) ++ (s0 :: s') ++ b) with (x :: (a ++ (s0 :: s') ++ b)). rewrite split_once_skip.
+    + now rewrite (IH Hn).
+    + cbn [is_prefix]. destruct (N.eqb_spec s0 x) as [E|_]; [now subst|reflexivity].
+Qed.
